@@ -49,10 +49,43 @@ def check(run, repo, tier):
   r5_exact_text(run, w, mod, ce)
 
 
+def _roles(w, mod):
+  """The private module functions the rules anchor on, found by what they do (names are hints):
+    parse_slot      dispatches through _SLOT_PARSERS[...]
+    parse_interval  matches _INTERVAL_RE
+    round_down      called by Schedule.series with the interval unit"""
+  key = id(w)
+  if key in _ROLE_CACHE:
+    return _ROLE_CACHE[key][0]
+  funcs = list(mod.functions.values())
+  out = {}
+  out["parse_slot"] = H._pick(
+    [f for f in funcs if any(isinstance(y, ast.Subscript) and text(y.value) == "_SLOT_PARSERS"
+                             for y in walk_no_nested(f.node))], "_parse_slot",
+    "%s: the function that dispatches on the slot type" % M)
+  out["parse_interval"] = H._pick(
+    [f for f in funcs if any(isinstance(c.func, ast.Attribute) and
+                             text(c.func.value) == "_INTERVAL_RE" for c in calls_in(f.node.body))],
+    "_parse_interval", "%s: the function that parses the interval" % M)
+  series = w.repo.func(M + ".Schedule.series")
+  out["round_down"] = H._pick(
+    [mod.functions[dotted(c.func)] for c in calls_in(series.node.body)
+     if dotted(c.func) in mod.functions and len(c.args) == 2 and
+     text(c.args[1]).endswith("_interval_unit")], "_round_down_to_unit",
+    "%s: the function that rounds the start down to the interval unit" % M)
+  _ROLE_CACHE[key] = (out, w)
+  return out
+
+
+_ROLE_CACHE = {}
+
+
 def _keep(mod, ce):
   """module helpers the rules look into themselves"""
-  return ("_parse_interval", "_parse_slot", "_round_down_to_unit", "_fail") + \
-      tuple(_func_names_dict(ce, mod, "_SLOT_PARSERS").values())
+  names = {"_parse_interval", "_parse_slot", "_round_down_to_unit", "_fail"}
+  for v in _ROLE_CACHE.values():
+    names |= {f.name for f in v[0].values()}
+  return tuple(sorted(names)) + tuple(_func_names_dict(ce, mod, "_SLOT_PARSERS").values())
 
 
 def _regex(ce, name):
@@ -107,7 +140,7 @@ def r1_slot_tables(run, w, mod, ce):
            "the slot types allowed for a unit are slot types that exist (m.group(slot_type) and "
            "_SLOT_PARSERS[slot_type] are then defined) and the unit is a unit", ok, fi=None)
   # the default used by _parse_slot when the unit is not listed, and the dispatch
-  ps = w.fn(M + "._parse_slot")
+  ps = w.fn_of(_roles(w, mod)["parse_slot"])
   v = H.View(ps)
   run = H.Guarded(run, v, keep=_keep(mod, ce))
   cfg = ps.cfg
@@ -332,7 +365,7 @@ def r3_units(run, w, mod, ce):
   units = ce.name("_UNITS")
   if not (isinstance(units, tuple) and all(isinstance(u, str) for u in units)):
     raise AnalysisError("%s._UNITS is not a tuple of names" % M)
-  rd = w.fn(M + "._round_down_to_unit")
+  rd = w.fn_of(_roles(w, mod)["round_down"])
   _rounding(run, R3, w, mod, ce, rd, units)
   vu = ce.name("_VALID_UNITS")
   run.ob(R3, "%s._VALID_UNITS" % M, "== set(_UNITS)", "the units _parse_interval lets through "
@@ -353,7 +386,7 @@ def r3_units(run, w, mod, ce):
            "count of a known unit", ok, fi=None)
   # _parse_interval: the unit returned is known to be a valid unit
   run0 = run
-  pi = w.fn(M + "._parse_interval")
+  pi = w.fn_of(_roles(w, mod)["parse_interval"])
   pv = H.View(pi)
   run = H.Guarded(run0, pv, keep=_keep(mod, ce))
   cfg = pi.cfg
@@ -691,7 +724,8 @@ def r5_exact_text(run, w, mod, ce):
   init = w.fn(M + ".Schedule.__init__")
   iv = H.View(init)
   ispec = init.fi.params()[1]
-  calls = [c for c in calls_in(init.node.body) if dotted(c.func) == "_parse_slot"]
+  calls = [c for c in calls_in(init.node.body)
+           if dotted(c.func) == _roles(w, mod)["parse_slot"].name]
   if len(calls) != 1:
     raise AnalysisError("%s.Schedule.__init__: one _parse_slot call expected" % M)
   a0 = iv.arg(calls[0], 0)
@@ -701,7 +735,7 @@ def r5_exact_text(run, w, mod, ce):
   run.ob(R5, init.qualname, "_parse_slot(<part of %s>)" % ispec, "the slot texts handed to the "
          "slot parser are pieces of the spec as written: %s" % short(src, 80),
          _mentions(src, ispec) and not _folds_case(src), fi=init.fi, node=calls[0])
-  ps = w.fn(M + "._parse_slot")
+  ps = w.fn_of(_roles(w, mod)["parse_slot"])
   pv = H.View(ps)
   p0 = ps.fi.params()[0]
   ms = [c for c in calls_in(ps.node.body) if isinstance(c.func, ast.Attribute) and
